@@ -222,7 +222,7 @@ func (w *World) resolveAddr(v ssa.Value) ssa.Value {
 func (w *World) AP(v ssa.Value) string { return w.ap(v, 0) }
 
 func (w *World) ap(v ssa.Value, depth int) string {
-	if depth > 12 {
+	if depth > 24 {
 		return "…"
 	}
 	v = w.Resolve(v)
@@ -367,13 +367,12 @@ func (w *World) apPhi(x *ssa.Phi, depth int) string {
 			}
 		}
 	}
-	if depth > 6 {
-		return "φ(…)"
-	}
+	// rendered with its own depth budget so that the same phi reads the same everywhere
+	_ = depth
 	seen := map[string]bool{}
 	var parts []string
 	for _, e := range x.Edges {
-		s := w.ap(e, depth+2)
+		s := w.ap(e, 4)
 		if !seen[s] {
 			seen[s] = true
 			parts = append(parts, s)
